@@ -701,6 +701,9 @@ pub struct World {
     /// the prefixes this configuration knows about (network, len)
     pub nets: Vec<(u32, u8)>,
     pub lens: (u8, u8),
+    /// the receiving address of the request the policies are generated for (set by the caller
+    /// after `gen_req`): lets match-subnet use the /30, /31, /32 around it
+    pub sip: Option<u32>,
 }
 
 pub fn mask(len: u8) -> u32 {
@@ -805,6 +808,20 @@ pub fn gen_policy(r: &mut Rng, w: &World, g: &GenCfg, depth: u32, server_net: Op
         if r.chance(1, 2) {
             // a subnet: mostly one the server is in
             p.sn = Some(match (server_net, r.below(6)) {
+                // every prefix length 8..32 around the receiving address, with emphasis on the
+                // boundary lengths 30, 31, 32 (netmask / broadcast defaults of a /31 and a /32)
+                (_, 0..=1) if w.sip.is_some() && r.chance(2, 3) => {
+                    let sip = w.sip.unwrap();
+                    let l = match r.below(8) {
+                        0..=2 => 32,
+                        3..=4 => 31,
+                        5 => 30,
+                        _ => r.range(8, 32) as u8,
+                    };
+                    // mostly the block the address is in, sometimes the neighbouring one
+                    let a = if r.chance(1, 6) && l > 8 { sip ^ (1u32 << (32 - l as u32)) } else { sip };
+                    (a & mask(l), l)
+                }
                 (Some(n), 0..=2) => n,
                 (Some(n), 3) if n.1 < 30 => {
                     // a more specific half of it
@@ -855,6 +872,7 @@ pub fn gen_policy(r: &mut Rng, w: &World, g: &GenCfg, depth: u32, server_net: Op
             3 => opt_by_code(119).unwrap(),
             4 => opt_by_code(114).unwrap(),
             5 => opt_by_code(*r.pick(&[3u8, 26])).unwrap(),
+            6 => opt_by_code(252).unwrap(), // a code >= 128
             _ => r.pick(OPTS),
         };
         if p.ao.iter().any(|(c, _)| *c == o.1) {
@@ -874,6 +892,43 @@ pub fn gen_policy(r: &mut Rng, w: &World, g: &GenCfg, depth: u32, server_net: Op
         for _ in 0..k {
             p.kids.push(gen_policy(r, w, g, depth + 1, server_net));
         }
+        // a condition-less sub-policy none of whose descendants can match, in front of its
+        // siblings: it must be skipped (not applied, and not stop the scan)
+        if depth + 2 <= g.depth && r.chance(1, 4) {
+            p.kids.insert(0, gen_decoy(r, w, false));
+        }
+    }
+    p
+}
+
+/// a hardware address no generated client uses
+pub const DECOY_MAC: [u8; 6] = [0x02, 0xde, 0xc0, 0xde, 0xc0, 0xde];
+
+/// condition-less policy whose descendants all fail (with options that would show if it were applied)
+pub fn gen_decoy(r: &mut Rng, w: &World, nested: bool) -> CPolicy {
+    let mut p = CPolicy::default();
+    let mut leaf = |r: &mut Rng| {
+        let mut q = CPolicy { ch: Some(DECOY_MAC.to_vec()), ..Default::default() };
+        let o = r.pick(OPTS);
+        q.ao.push((o.1, Some(gen_val(r, w, o.2))));
+        q
+    };
+    for code in [6u8, 252, 28] {
+        if r.chance(1, 2) {
+            let o = opt_by_code(code).unwrap();
+            p.ao.push((o.1, if r.chance(1, 4) { None } else { Some(gen_val(r, w, o.2)) }));
+        }
+    }
+    let k = r.below(3);
+    for _ in 0..k {
+        let q = leaf(r);
+        p.kids.push(q);
+    }
+    if nested && r.chance(1, 2) {
+        // one more condition-less level
+        let mut mid = CPolicy::default();
+        mid.kids.push(leaf(r));
+        p.kids.push(mid);
     }
     p
 }
@@ -914,7 +969,7 @@ pub fn gen_addr_items(r: &mut Rng, w: &World, p: &mut CPolicy, server_net: Optio
 }
 
 pub fn gen_conf(r: &mut Rng, g: &GenCfg, lens: (u8, u8)) -> (Conf, World) {
-    let mut w = World { nets: vec![], lens };
+    let mut w = World { nets: vec![], lens, sip: None };
     let k = match r.below(8) {
         0 => 0,
         1..=5 => 1,
@@ -988,7 +1043,7 @@ pub fn gen_req(r: &mut Rng, w: &World, c: &Conf) -> (Req, Option<(u32, u8)>) {
     let mut pl: Vec<u8> = vec![];
     match r.below(8) {
         0 => {}
-        1 => pl = vec![1, 3, 6],
+        1 => pl = r.pick(&[vec![1u8, 3, 6], vec![28, 3, 6], vec![1, 28], vec![28], vec![1], vec![252, 28], vec![252]]).clone(),
         _ => {
             for o in OPTS {
                 if r.chance(3, 4) {
@@ -997,6 +1052,21 @@ pub fn gen_req(r: &mut Rng, w: &World, c: &Conf) -> (Req, Option<(u32, u8)>) {
             }
             if r.chance(1, 4) {
                 pl.push(*r.pick(&[0u8, 55, 53, 54, 200, 255]));
+            }
+            // netmask and broadcast requested separately as well as together
+            match r.below(6) {
+                0 => pl.retain(|c| *c != 1),
+                1 => pl.retain(|c| *c != 28),
+                2 => {
+                    pl.retain(|c| *c != 1 && *c != 28);
+                    pl.push(28);
+                    pl.push(1);
+                }
+                _ => {}
+            }
+            // codes >= 128 in the request list
+            if r.chance(1, 3) && !pl.contains(&252) {
+                pl.insert(0, 252);
             }
         }
     }
